@@ -211,8 +211,8 @@ class UnloadRun:
             if st["handler_after"]:
                 self.fail("U2", f"{name}:handler:{phase}", f"{where}: handler {st['handler_after'][0]} ran after unload() "
                                                            f"had returned ({phase})")
-            sent = [fl for fl in env.net.log if fl.seq > st["seq_done"] and fl.origin is node.raw_endpoint
-                    and fl.data[:22] == prefix]
+            sent = [fl for fl in env.net.log if fl.seq > st["seq_done"] and fl.data[:22] == prefix
+                    and (fl.origin is node.raw_endpoint or (node.raw_endpoint6 is not None and fl.origin is node.raw_endpoint6))]
             if sent:
                 self.fail("U1", f"{name}:send:{phase}", f"{where}: the overlay sent message id {sent[0].data[22]} to "
                                                         f"{sent[0].dst} after unload() had returned ({phase})")
@@ -226,6 +226,9 @@ class UnloadRun:
         check("at return")
         ep = node.raw_endpoint
         listeners = list(ep._listeners) + [l for ls in ep._prefix_map.values() for l in ls]  # noqa: SLF001
+        ep6 = node.raw_endpoint6
+        if ep6 is not None:
+            listeners += list(ep6._listeners) + [l for ls in ep6._prefix_map.values() for l in ls]  # noqa: SLF001
         if any(l is ov for l in listeners):
             self.fail("U5", f"{name}:listener", f"{where}: the overlay is still registered as endpoint listener")
         ce = getattr(ov, "crypto_endpoint", None)
@@ -247,6 +250,12 @@ class UnloadRun:
             ep.deliver(src, data)
         for i in range(256):
             ep.deliver(("1.0.0.2", 8001), prefix + bytes([i]) + b"\x00" * 8)
+        if ep6 is not None:
+            # the node's second address family: the same late traffic arrives there
+            for src, data in late[:200]:
+                ep6.deliver(("2001:db8::2", 8001), data)
+            for i in range(256):
+                ep6.deliver(("2001:db8::2", 8001), prefix + bytes([i]) + b"\x00" * 8)
         await env.net.settle()
         check("late datagrams")
         # one more minute with the neighbours alive (their periodic traffic keeps arriving), then they are stopped and
